@@ -1659,6 +1659,12 @@ func RunEngineScript(lines []string, w *bufio.Writer, verbose bool) error {
 	if os.Getenv("VERIF_TIER") == "thorough" {
 		r.maxCrashPoints, r.byteCuts = 400, 6
 	}
+	r.shadow.lazy = true
+	for _, ln := range lines {
+		if strings.HasPrefix(ln, "E crashscan") {
+			r.shadow.lazy = false
+		}
+	}
 	r.cur = "db"
 	r.dirs["db"] = filepath.Join(root, "db")
 	r.installHooks()
